@@ -344,8 +344,7 @@ def do_loop_fusion(routine):
                             diff = [simplify(bound - b) for b in lower_bounds]
                             is_any_negative = any(is_constant(d) and symbolic_op(d, op.lt, 0) for d in diff)
                             is_any_not_negative = any(is_constant(d) and symbolic_op(d, op.ge, 0) for d in diff)
-                            is_new_bound = (not lower_bounds or is_any_negative or
-                                            (not is_constant(bound) and not is_any_not_negative))
+                            is_new_bound = (not lower_bounds or is_any_negative or not is_any_not_negative)
                             if is_new_bound:
                                 # Remove any lower bounds made redundant by bound:
                                 lower_bounds = [b for b, d in zip(lower_bounds, diff)
@@ -360,8 +359,7 @@ def do_loop_fusion(routine):
                             diff = [simplify(bound - b) for b in upper_bounds]
                             is_any_positive = any(is_constant(d) and symbolic_op(d, op.gt, 0) for d in diff)
                             is_any_not_positive = any(is_constant(d) and symbolic_op(d, op.le, 0) for d in diff)
-                            is_new_bound = (not upper_bounds or is_any_positive or
-                                            (not is_constant(bound) and not is_any_not_positive))
+                            is_new_bound = (not upper_bounds or is_any_positive or not is_any_not_positive)
                             if is_new_bound:
                                 # Remove any lower bounds made redundant by bound:
                                 upper_bounds = [b for b, d in zip(upper_bounds, diff)
